@@ -3,6 +3,7 @@
   or a block boundary running the oracle and settlement end-blockers in the application's order), and runs.
 -/
 import SettlusModel.Oracle
+import SettlusModel.Generated.Facts
 namespace Settlus
 
 inductive Op
@@ -108,7 +109,9 @@ def run (H : Str → Str) : State → List Op → State
 
 /-- the state after `InitGenesis` of the default genesis used by the harness: five bonded validators of one unit each,
     default parameters, and the round description for the first block already published -/
-def defaultOParams : OParams := { votePeriod := 10, threshold := one18 / 2, slashFraction := one18 / 100, slashWindow := 100000, maxMiss := 60 }
+def defaultOParams : OParams :=
+  { votePeriod := Facts.defaultOracleParams.getD 0 0, threshold := Facts.defaultOracleParams.getD 1 0, slashFraction := Facts.defaultOracleParams.getD 2 0,
+    slashWindow := Facts.defaultOracleParams.getD 3 0, maxMiss := Facts.defaultOracleParams.getD 4 0 }
 
 def initState (pr : Nat) (constant : Bool) : State :=
   let s0 : State := {
